@@ -57,6 +57,13 @@ pub mod iter {
         out.into_iter().map(|x| x.unwrap()).collect()
     }
 
+    /// rayon's private `Try` (Option / Result / ControlFlow-like short-circuiting)
+    pub trait Try: Sized { type Output; fn branch(self) -> Result<Self::Output, Self>; fn from_output(o: Self::Output) -> Self; }
+    impl<T> Try for Option<T> { type Output = T; fn branch(self) -> Result<T, Self> { match self { Some(x) => Ok(x), None => Err(None) } } fn from_output(o: T) -> Self { Some(o) } }
+    impl<T, E> Try for Result<T, E> { type Output = T; fn branch(self) -> Result<T, Self> { match self { Ok(x) => Ok(x), Err(e) => Err(Err(e)) } } fn from_output(o: T) -> Self { Ok(o) } }
+    #[derive(Clone, Copy, Debug, PartialEq, Eq)]
+    pub enum Either<L, R> { Left(L), Right(R) }
+
     pub trait ParallelIterator<'a>: Sized {
         type Item: 'a;
         fn into_multi(self) -> ParMulti<'a, Self::Item>;
@@ -66,11 +73,11 @@ pub mod iter {
             let jobs: Vec<Thunk<'_, ()>> = jobs.into_iter().map(|j| Box::new(move || { for x in j() { f(x) } }) as Thunk<'_, ()>).collect();
             run_all(jobs);
         }
-        fn try_for_each<F, E>(self, f: F) -> Result<(), E> where F: Fn(Self::Item) -> Result<(), E> + 'a {
+        fn try_for_each<F, R>(self, f: F) -> R where F: Fn(Self::Item) -> R + 'a, R: Try<Output = ()> {
             let jobs = self.into_multi().jobs; let n=jobs.len(); let order=sim::perm(n);
             let mut jobs: Vec<Option<Thunk<'a, Vec<Self::Item>>>> = jobs.into_iter().map(Some).collect();
-            for i in order { for x in (jobs[i].take().unwrap())() { f(x)?; } }
-            Ok(())
+            for i in order { for x in (jobs[i].take().unwrap())() { if let Err(e) = f(x).branch() { return e; } } }
+            R::from_output(())
         }
         fn map<F, R: 'a>(self, f: F) -> ParMulti<'a, R> where F: Fn(Self::Item) -> R + 'a { unimplemented_shape(self, f) }
         fn filter<P>(self, p: P) -> ParMulti<'a, Self::Item> where P: Fn(&Self::Item) -> bool + 'a {
@@ -187,12 +194,58 @@ pub mod iter {
             let jobs: Vec<Thunk<'_, ()>> = self.into_multi().jobs.into_iter().map(|j| Box::new(move || { let mut st = init(); for x in j() { f(&mut st, x) } }) as Thunk<'_, ()>).collect();
             run_all(jobs);
         }
-        fn try_for_each_with<T: Clone + 'a, F, E>(self, init: T, f: F) -> Result<(), E> where F: Fn(&mut T, Self::Item) -> Result<(), E> + 'a {
+        fn try_for_each_with<T: Clone + 'a, F, R>(self, init: T, f: F) -> R where F: Fn(&mut T, Self::Item) -> R + 'a, R: Try<Output = ()> {
             let jobs = self.into_multi().jobs; let n=jobs.len(); let order=sim::perm(n);
             let mut jobs: Vec<Option<Thunk<'a, Vec<Self::Item>>>> = jobs.into_iter().map(Some).collect();
-            for i in order { let mut st = init.clone(); for x in (jobs[i].take().unwrap())() { f(&mut st, x)?; } }
-            Ok(())
+            for i in order { let mut st = init.clone(); for x in (jobs[i].take().unwrap())() { if let Err(e) = f(&mut st, x).branch() { return e; } } }
+            R::from_output(())
         }
+        fn try_for_each_init<INIT, T, F, R>(self, init: INIT, f: F) -> R where INIT: Fn() -> T + 'a, F: Fn(&mut T, Self::Item) -> R + 'a, R: Try<Output = ()> {
+            let jobs = self.into_multi().jobs; let n=jobs.len(); let order=sim::perm(n);
+            let mut jobs: Vec<Option<Thunk<'a, Vec<Self::Item>>>> = jobs.into_iter().map(Some).collect();
+            for i in order { let mut st = init(); for x in (jobs[i].take().unwrap())() { if let Err(e) = f(&mut st, x).branch() { return e; } } }
+            R::from_output(())
+        }
+        fn update<F>(self, f: F) -> ParMulti<'a, Self::Item> where F: Fn(&mut Self::Item) + 'a {
+            let f = std::rc::Rc::new(f);
+            ParMulti { jobs: self.into_multi().jobs.into_iter().map(|j| { let f=f.clone(); Box::new(move || { let mut v = j(); for x in v.iter_mut() { f(x) } v }) as Thunk<'a, Vec<Self::Item>> }).collect() }
+        }
+        fn fold_with<T: Clone + 'a, F>(self, init: T, fold_op: F) -> ParMulti<'a, T> where F: Fn(T, Self::Item) -> T + 'a {
+            self.fold(move || init.clone(), fold_op)
+        }
+        /// per-chunk short-circuiting fold: one `R` per seeded chunk
+        fn try_fold<T: 'a, R: 'a, ID, F>(self, identity: ID, fold_op: F) -> ParMulti<'a, R> where F: Fn(T, Self::Item) -> R + 'a, ID: Fn() -> T + 'a, R: Try<Output = T> {
+            let items = collect_vec(self); let n=items.len(); let cuts=sim::cuts(n);
+            let mut it = items.into_iter(); let mut parts: Vec<R> = Vec::new();
+            for (a,b) in cuts { let mut acc=Some(identity()); let mut failed: Option<R> = None; for x in it.by_ref().take(b-a) { if failed.is_some() { continue; } match fold_op(acc.take().unwrap(), x).branch() { Ok(v) => acc = Some(v), Err(e) => failed = Some(e) } } parts.push(match failed { Some(e) => e, None => R::from_output(acc.unwrap()) }); }
+            ParMulti { jobs: parts.into_iter().map(|p| Box::new(move || vec![p]) as Thunk<'a, Vec<R>>).collect() }
+        }
+        fn try_fold_with<T: Clone + 'a, R: 'a, F>(self, init: T, fold_op: F) -> ParMulti<'a, R> where F: Fn(T, Self::Item) -> R + 'a, R: Try<Output = T> {
+            self.try_fold(move || init.clone(), fold_op)
+        }
+        fn try_reduce_with<T, OP>(self, op: OP) -> Option<Self::Item> where OP: Fn(T, T) -> Self::Item, Self::Item: Try<Output = T> {
+            let mut acc: Option<T> = None;
+            for x in collect_vec(self) { match x.branch() { Err(e) => return Some(e), Ok(v) => { acc = Some(match acc { None => v, Some(a) => match op(a, v).branch() { Ok(r) => r, Err(e) => return Some(e) } }); } } }
+            acc.map(Self::Item::from_output)
+        }
+        fn find_last<P>(self, p: P) -> Option<Self::Item> where P: Fn(&Self::Item) -> bool + 'a { collect_vec(self).into_iter().rev().find(|x| p(x)) }
+        fn find_map_first<P, R>(self, p: P) -> Option<R> where P: Fn(Self::Item) -> Option<R> + 'a { collect_vec(self).into_iter().find_map(|x| p(x)) }
+        fn find_map_last<P, R>(self, p: P) -> Option<R> where P: Fn(Self::Item) -> Option<R> + 'a { collect_vec(self).into_iter().rev().find_map(|x| p(x)) }
+        fn partition_map<A, B, P, L, R>(self, p: P) -> (A, B) where A: Default + Extend<L>, B: Default + Extend<R>, P: Fn(Self::Item) -> Either<L, R> + 'a {
+            let (mut a, mut b) = (A::default(), B::default());
+            for x in collect_vec(self) { match p(x) { Either::Left(l) => a.extend(std::iter::once(l)), Either::Right(r) => b.extend(std::iter::once(r)) } }
+            (a, b)
+        }
+        fn intersperse(self, element: Self::Item) -> ParMulti<'a, Self::Item> where Self::Item: Clone {
+            let v = collect_vec(self); let mut out = Vec::with_capacity(v.len() * 2);
+            for (i, x) in v.into_iter().enumerate() { if i > 0 { out.push(element.clone()); } out.push(x); }
+            from_iter(out).into_multi()
+        }
+        fn collect_vec_list(self) -> std::collections::LinkedList<Vec<Self::Item>> {
+            let items = collect_vec(self); let n=items.len(); let cuts=sim::cuts(n); let mut it = items.into_iter();
+            cuts.into_iter().map(|(a,b)| it.by_ref().take(b-a).collect::<Vec<_>>()).collect()
+        }
+        fn opt_len(&self) -> Option<usize> { None }
         /// some element satisfying the predicate: the first one in *schedule* order
         fn find_any<P>(self, p: P) -> Option<Self::Item> where P: Fn(&Self::Item) -> bool + 'a {
             let jobs = self.into_multi().jobs; let n=jobs.len(); let order=sim::perm(n);
@@ -221,10 +274,10 @@ pub mod iter {
             for (a,b) in cuts { let mut part: Option<Self::Item> = None; for x in it.by_ref().take(b-a) { part = Some(match part { None => x, Some(p) => op(p, x) }); } if let Some(p) = part { acc = Some(match acc { None => p, Some(q) => op(q, p) }); } }
             acc
         }
-        fn try_reduce<T, OP, ID>(self, identity: ID, op: OP) -> Option<T> where Self: ParallelIterator<'a, Item = Option<T>>, OP: Fn(T, T) -> Option<T>, ID: Fn() -> T {
+        fn try_reduce<T, OP, ID>(self, identity: ID, op: OP) -> Self::Item where OP: Fn(T, T) -> Self::Item, ID: Fn() -> T, Self::Item: Try<Output = T> {
             let mut acc = identity();
-            for x in collect_vec(self) { acc = op(acc, x?)?; }
-            Some(acc)
+            for x in collect_vec(self) { match x.branch() { Err(e) => return e, Ok(v) => match op(acc, v).branch() { Ok(r) => acc = r, Err(e) => return e } } }
+            Self::Item::from_output(acc)
         }
         fn partition<A, B, P>(self, p: P) -> (A, B) where A: Default + Extend<Self::Item>, B: Default + Extend<Self::Item>, P: Fn(&Self::Item) -> bool + 'a {
             let (mut a, mut b) = (A::default(), B::default());
@@ -282,6 +335,45 @@ pub mod iter {
             loop { match (a.next(), b.next()) { (None, None) => break, (x, y) => { if let Some(x)=x { out.push(x) } if let Some(y)=y { out.push(y) } } } }
             Par { jobs: out }
         }
+        fn len(&self) -> usize;
+        fn by_exponential_blocks(self) -> Par<'a, Self::Item> { self.into_par() }
+        fn by_uniform_blocks(self, _n: usize) -> Par<'a, Self::Item> { self.into_par() }
+        fn unzip_into_vecs<A: 'a, B: 'a>(self, left: &mut Vec<A>, right: &mut Vec<B>) where Self: IndexedParallelIterator<'a, Item = (A, B)> {
+            let (l, r): (Vec<A>, Vec<B>) = collect_vec(self.into_par()).into_iter().unzip(); *left = l; *right = r;
+        }
+        fn interleave_shortest<Z>(self, other: Z) -> Par<'a, Self::Item> where Z: IntoParallelIterator<'a, Item = Self::Item>, Z::Iter: IndexedParallelIterator<'a> {
+            let mut a = self.into_par().jobs.into_iter(); let mut b = other.into_par_iter().into_par().jobs.into_iter(); let mut out = Vec::new();
+            loop { match a.next() { None => break, Some(x) => { out.push(x); match b.next() { None => break, Some(y) => out.push(y) } } } }
+            Par { jobs: out }
+        }
+        fn fold_chunks<T: 'a, ID, F>(self, chunk_size: usize, identity: ID, fold_op: F) -> Par<'a, T> where F: Fn(T, Self::Item) -> T + 'a, ID: Fn() -> T + 'a {
+            assert!(chunk_size != 0, "chunk_size must not be zero");
+            let (id, f) = (std::rc::Rc::new(identity), std::rc::Rc::new(fold_op));
+            let ch = self.chunks(chunk_size);
+            Par { jobs: ch.jobs.into_iter().map(|j| { let (id, f) = (id.clone(), f.clone()); Box::new(move || j().into_iter().fold(id(), |a, x| f(a, x))) as Thunk<'a, T> }).collect() }
+        }
+        fn fold_chunks_with<T: Clone + 'a, F>(self, chunk_size: usize, init: T, fold_op: F) -> Par<'a, T> where F: Fn(T, Self::Item) -> T + 'a {
+            self.fold_chunks(chunk_size, move || init.clone(), fold_op)
+        }
+        fn cmp<I>(self, other: I) -> std::cmp::Ordering where I: IntoParallelIterator<'a, Item = Self::Item>, I::Iter: IndexedParallelIterator<'a>, Self::Item: Ord {
+            collect_vec(self.into_par()).cmp(&collect_vec(other.into_par_iter().into_par()))
+        }
+        fn partial_cmp<I>(self, other: I) -> Option<std::cmp::Ordering> where I: IntoParallelIterator<'a>, I::Iter: IndexedParallelIterator<'a>, Self::Item: PartialOrd<I::Item> {
+            collect_vec(self.into_par()).into_iter().partial_cmp(collect_vec(other.into_par_iter().into_par()))
+        }
+        fn eq<I>(self, other: I) -> bool where I: IntoParallelIterator<'a>, I::Iter: IndexedParallelIterator<'a>, Self::Item: PartialEq<I::Item> {
+            collect_vec(self.into_par()).into_iter().eq(collect_vec(other.into_par_iter().into_par()))
+        }
+        fn ne<I>(self, other: I) -> bool where I: IntoParallelIterator<'a>, I::Iter: IndexedParallelIterator<'a>, Self::Item: PartialEq<I::Item> { !self.eq(other) }
+        fn lt<I>(self, other: I) -> bool where I: IntoParallelIterator<'a>, I::Iter: IndexedParallelIterator<'a>, Self::Item: PartialOrd<I::Item> { self.partial_cmp(other) == Some(std::cmp::Ordering::Less) }
+        fn le<I>(self, other: I) -> bool where I: IntoParallelIterator<'a>, I::Iter: IndexedParallelIterator<'a>, Self::Item: PartialOrd<I::Item> { matches!(self.partial_cmp(other), Some(std::cmp::Ordering::Less | std::cmp::Ordering::Equal)) }
+        fn gt<I>(self, other: I) -> bool where I: IntoParallelIterator<'a>, I::Iter: IndexedParallelIterator<'a>, Self::Item: PartialOrd<I::Item> { self.partial_cmp(other) == Some(std::cmp::Ordering::Greater) }
+        fn ge<I>(self, other: I) -> bool where I: IntoParallelIterator<'a>, I::Iter: IndexedParallelIterator<'a>, Self::Item: PartialOrd<I::Item> { matches!(self.partial_cmp(other), Some(std::cmp::Ordering::Greater | std::cmp::Ordering::Equal)) }
+        fn position_last<P>(self, p: P) -> Option<usize> where P: Fn(Self::Item) -> bool + 'a { collect_vec(self.into_par()).into_iter().rposition(|x| p(x)) }
+        fn positions<P>(self, p: P) -> ParMulti<'a, usize> where P: Fn(Self::Item) -> bool + 'a {
+            let p = std::rc::Rc::new(p);
+            ParMulti { jobs: self.into_par().jobs.into_iter().enumerate().map(|(i, j)| { let p=p.clone(); Box::new(move || if p(j()) { vec![i] } else { vec![] }) as Thunk<'a, Vec<usize>> }).collect() }
+        }
         fn rev(self) -> Par<'a, Self::Item> { let mut j=self.into_par().jobs; j.reverse(); Par{jobs:j} }
         fn skip(self, n: usize) -> Par<'a, Self::Item> { Par{ jobs: self.into_par().jobs.into_iter().skip(n).collect() } }
         fn take(self, n: usize) -> Par<'a, Self::Item> { Par{ jobs: self.into_par().jobs.into_iter().take(n).collect() } }
@@ -293,7 +385,7 @@ pub mod iter {
             Par{jobs:out}
         }
     }
-    impl<'a, T: 'a> IndexedParallelIterator<'a> for Par<'a, T> { fn into_par(self) -> Par<'a, T> { self } }
+    impl<'a, T: 'a> IndexedParallelIterator<'a> for Par<'a, T> { fn into_par(self) -> Par<'a, T> { self } fn len(&self) -> usize { self.jobs.len() } }
     // map on an indexed iterator must stay indexed: provide it via a separate inherent method shadowing the trait one.
     impl<'a, T: 'a> Par<'a, T> {
         pub fn map<F, R: 'a>(self, f: F) -> Par<'a, R> where F: Fn(T) -> R + 'a { let f=std::rc::Rc::new(f); Par { jobs: self.jobs.into_iter().map(|j| { let f=f.clone(); Box::new(move || f(j())) as Thunk<'a, R> }).collect() } }
@@ -327,6 +419,45 @@ pub mod iter {
     impl<'a, K: 'a + Ord, V: 'a> IntoParallelIterator<'a> for std::collections::BTreeMap<K, V> { type Iter = Par<'a, (K, V)>; type Item = (K, V); fn into_par_iter(self) -> Self::Iter { from_iter(self.into_iter()) } }
     impl<'a, T: 'a> IntoParallelIterator<'a> for &'a std::collections::VecDeque<T> { type Iter = Par<'a, &'a T>; type Item = &'a T; fn into_par_iter(self) -> Self::Iter { from_iter(self.iter()) } }
     impl<'a, T: 'a> IntoParallelIterator<'a> for Option<T> { type Iter = Par<'a, T>; type Item = T; fn into_par_iter(self) -> Self::Iter { from_iter(self.into_iter()) } }
+    impl<'a, K: 'a, V: 'a, S> IntoParallelIterator<'a> for &'a std::collections::HashMap<K, V, S> { type Iter = Par<'a, (&'a K, &'a V)>; type Item = (&'a K, &'a V); fn into_par_iter(self) -> Self::Iter { from_iter(self.iter()) } }
+    impl<'a, K: 'a, V: 'a, S> IntoParallelIterator<'a> for &'a mut std::collections::HashMap<K, V, S> { type Iter = Par<'a, (&'a K, &'a mut V)>; type Item = (&'a K, &'a mut V); fn into_par_iter(self) -> Self::Iter { from_iter(self.iter_mut()) } }
+    impl<'a, K: 'a, V: 'a, S> IntoParallelIterator<'a> for std::collections::HashMap<K, V, S> { type Iter = Par<'a, (K, V)>; type Item = (K, V); fn into_par_iter(self) -> Self::Iter { from_iter(self.into_iter()) } }
+    impl<'a, T: 'a, S> IntoParallelIterator<'a> for &'a std::collections::HashSet<T, S> { type Iter = Par<'a, &'a T>; type Item = &'a T; fn into_par_iter(self) -> Self::Iter { from_iter(self.iter()) } }
+    impl<'a, T: 'a, S> IntoParallelIterator<'a> for std::collections::HashSet<T, S> { type Iter = Par<'a, T>; type Item = T; fn into_par_iter(self) -> Self::Iter { from_iter(self.into_iter()) } }
+    impl<'a, T: 'a + Ord> IntoParallelIterator<'a> for std::collections::BTreeSet<T> { type Iter = Par<'a, T>; type Item = T; fn into_par_iter(self) -> Self::Iter { from_iter(self.into_iter()) } }
+    impl<'a, K: 'a + Ord, V: 'a> IntoParallelIterator<'a> for &'a mut std::collections::BTreeMap<K, V> { type Iter = Par<'a, (&'a K, &'a mut V)>; type Item = (&'a K, &'a mut V); fn into_par_iter(self) -> Self::Iter { from_iter(self.iter_mut()) } }
+    impl<'a, T: 'a> IntoParallelIterator<'a> for std::collections::VecDeque<T> { type Iter = Par<'a, T>; type Item = T; fn into_par_iter(self) -> Self::Iter { from_iter(self.into_iter()) } }
+    impl<'a, T: 'a> IntoParallelIterator<'a> for &'a mut std::collections::VecDeque<T> { type Iter = Par<'a, &'a mut T>; type Item = &'a mut T; fn into_par_iter(self) -> Self::Iter { from_iter(self.iter_mut()) } }
+    impl<'a, T: 'a> IntoParallelIterator<'a> for &'a std::collections::LinkedList<T> { type Iter = Par<'a, &'a T>; type Item = &'a T; fn into_par_iter(self) -> Self::Iter { from_iter(self.iter()) } }
+    impl<'a, T: 'a> IntoParallelIterator<'a> for std::collections::LinkedList<T> { type Iter = Par<'a, T>; type Item = T; fn into_par_iter(self) -> Self::Iter { from_iter(self.into_iter()) } }
+    impl<'a, T: 'a> IntoParallelIterator<'a> for &'a Option<T> { type Iter = Par<'a, &'a T>; type Item = &'a T; fn into_par_iter(self) -> Self::Iter { from_iter(self.iter()) } }
+    impl<'a, T: 'a> IntoParallelIterator<'a> for &'a mut Option<T> { type Iter = Par<'a, &'a mut T>; type Item = &'a mut T; fn into_par_iter(self) -> Self::Iter { from_iter(self.iter_mut()) } }
+    impl<'a, T: 'a, E> IntoParallelIterator<'a> for Result<T, E> { type Iter = Par<'a, T>; type Item = T; fn into_par_iter(self) -> Self::Iter { from_iter(self.into_iter()) } }
+    impl<'a, T: 'a, const N: usize> IntoParallelIterator<'a> for [T; N] { type Iter = Par<'a, T>; type Item = T; fn into_par_iter(self) -> Self::Iter { from_iter(self.into_iter()) } }
+    impl<'a, T: 'a, const N: usize> IntoParallelIterator<'a> for &'a mut [T; N] { type Iter = Par<'a, &'a mut T>; type Item = &'a mut T; fn into_par_iter(self) -> Self::Iter { from_iter(self.iter_mut()) } }
+    impl<'a, T: 'a> IntoParallelIterator<'a> for Box<[T]> { type Iter = Par<'a, T>; type Item = T; fn into_par_iter(self) -> Self::Iter { from_iter(self.into_vec()) } }
+    impl<'a, T: 'a> IntoParallelIterator<'a> for &'a Box<[T]> { type Iter = Par<'a, &'a T>; type Item = &'a T; fn into_par_iter(self) -> Self::Iter { from_iter(self.iter()) } }
+    range_impl!(i8, i16, u128, i128);
+    impl<'a> IntoParallelIterator<'a> for std::ops::Range<char> { type Iter = Par<'a, char>; type Item = char; fn into_par_iter(self) -> Self::Iter { from_iter(self) } }
+    impl<'a> IntoParallelIterator<'a> for std::ops::RangeInclusive<char> { type Iter = Par<'a, char>; type Item = char; fn into_par_iter(self) -> Self::Iter { from_iter(self) } }
+    /// `rayon::iter::{once, empty, repeatn, repeat_n}`; `repeat(x)` supports `take` and `zip` (the only finite uses)
+    pub fn once<'a, T: 'a>(x: T) -> Par<'a, T> { from_iter(std::iter::once(x)) }
+    pub fn empty<'a, T: 'a>() -> Par<'a, T> { from_iter(std::iter::empty()) }
+    pub fn repeatn<'a, T: 'a + Clone>(x: T, n: usize) -> Par<'a, T> { from_iter((0..n).map(move |_| x.clone()).collect::<Vec<_>>()) }
+    pub fn repeat_n<'a, T: 'a + Clone>(x: T, n: usize) -> Par<'a, T> { repeatn(x, n) }
+    pub struct Repeat<T> { x: T }
+    pub fn repeat<T: Clone>(x: T) -> Repeat<T> { Repeat { x } }
+    impl<T: Clone> Repeat<T> {
+        pub fn take<'a>(self, n: usize) -> Par<'a, T> where T: 'a { repeatn(self.x, n) }
+        pub fn zip<'a, Z>(self, other: Z) -> Par<'a, (T, Z::Item)> where T: 'a, Z: IntoParallelIterator<'a>, Z::Iter: IndexedParallelIterator<'a> {
+            let x = self.x; Par { jobs: other.into_par_iter().into_par().jobs.into_iter().map(|j| { let x = x.clone(); Box::new(move || (x, j())) as Thunk<'a, _> }).collect() }
+        }
+    }
+    pub trait ParallelDrainRange<'a, T: 'a> { fn par_drain<R: std::ops::RangeBounds<usize>>(&'a mut self, range: R) -> Par<'a, T>; }
+    impl<'a, T: 'a> ParallelDrainRange<'a, T> for Vec<T> { fn par_drain<R: std::ops::RangeBounds<usize>>(&'a mut self, range: R) -> Par<'a, T> { from_iter(self.drain(range).collect::<Vec<_>>()) } }
+    pub trait ParallelDrainFull<'a, T: 'a> { fn par_drain(self) -> Par<'a, T>; }
+    impl<'a, K: 'a, V: 'a, S> ParallelDrainFull<'a, (K, V)> for &'a mut std::collections::HashMap<K, V, S> { fn par_drain(self) -> Par<'a, (K, V)> { from_iter(self.drain().collect::<Vec<_>>()) } }
+    impl<'a, T: 'a, S> ParallelDrainFull<'a, T> for &'a mut std::collections::HashSet<T, S> { fn par_drain(self) -> Par<'a, T> { from_iter(self.drain().collect::<Vec<_>>()) } }
     pub trait ParallelBridge<'a>: Sized { type Item: 'a; fn par_bridge(self) -> ParMulti<'a, Self::Item>; }
     impl<'a, T: 'a, I: Iterator<Item = T>> ParallelBridge<'a> for I { type Item = T; fn par_bridge(self) -> ParMulti<'a, T> { from_iter(self).into_multi() } }
 }
@@ -340,6 +471,19 @@ pub mod slice {
         fn par_windows<'a>(&'a self, size: usize) -> Par<'a, &'a [T]> where T: 'a { Par { jobs: self.as_ps().windows(size).map(|c| Box::new(move || c) as Thunk<'a, &'a [T]>).collect() } }
         fn par_chunks_exact<'a>(&'a self, size: usize) -> Par<'a, &'a [T]> where T: 'a { Par { jobs: self.as_ps().chunks_exact(size).map(|c| Box::new(move || c) as Thunk<'a, &'a [T]>).collect() } } }
     impl<T> ParallelSliceExtra<T> for [T] { fn as_ps(&self) -> &[T] { self } }
+    pub trait ParallelSliceExtra2<T> { fn as_ps2(&self) -> &[T];
+        fn par_rchunks<'a>(&'a self, size: usize) -> Par<'a, &'a [T]> where T: 'a { Par { jobs: self.as_ps2().rchunks(size).map(|c| Box::new(move || c) as Thunk<'a, &'a [T]>).collect() } }
+        fn par_rchunks_exact<'a>(&'a self, size: usize) -> Par<'a, &'a [T]> where T: 'a { Par { jobs: self.as_ps2().rchunks_exact(size).map(|c| Box::new(move || c) as Thunk<'a, &'a [T]>).collect() } }
+        fn par_split<'a, P: Fn(&T) -> bool + 'a>(&'a self, sep: P) -> ParMulti<'a, &'a [T]> where T: 'a { Par { jobs: self.as_ps2().split(move |x| sep(x)).collect::<Vec<_>>().into_iter().map(|c| Box::new(move || c) as Thunk<'a, &'a [T]>).collect() }.into_multi() }
+        fn par_split_inclusive<'a, P: Fn(&T) -> bool + 'a>(&'a self, sep: P) -> ParMulti<'a, &'a [T]> where T: 'a { Par { jobs: self.as_ps2().split_inclusive(move |x| sep(x)).collect::<Vec<_>>().into_iter().map(|c| Box::new(move || c) as Thunk<'a, &'a [T]>).collect() }.into_multi() }
+        fn par_chunk_by<'a, P: Fn(&T, &T) -> bool + 'a>(&'a self, pred: P) -> ParMulti<'a, &'a [T]> where T: 'a { Par { jobs: self.as_ps2().chunk_by(move |a, b| pred(a, b)).collect::<Vec<_>>().into_iter().map(|c| Box::new(move || c) as Thunk<'a, &'a [T]>).collect() }.into_multi() } }
+    impl<T> ParallelSliceExtra2<T> for [T] { fn as_ps2(&self) -> &[T] { self } }
+    pub trait ParallelSliceMutExtra2<T> { fn as_psm2(&mut self) -> &mut [T];
+        fn par_rchunks_mut<'a>(&'a mut self, size: usize) -> Par<'a, &'a mut [T]> where T: 'a { Par { jobs: self.as_psm2().rchunks_mut(size).map(|c| Box::new(move || c) as Thunk<'a, &'a mut [T]>).collect() } }
+        fn par_rchunks_exact_mut<'a>(&'a mut self, size: usize) -> Par<'a, &'a mut [T]> where T: 'a { Par { jobs: self.as_psm2().rchunks_exact_mut(size).map(|c| Box::new(move || c) as Thunk<'a, &'a mut [T]>).collect() } }
+        fn par_split_mut<'a, P: Fn(&T) -> bool + 'a>(&'a mut self, sep: P) -> ParMulti<'a, &'a mut [T]> where T: 'a { Par { jobs: self.as_psm2().split_mut(move |x| sep(x)).collect::<Vec<_>>().into_iter().map(|c| Box::new(move || c) as Thunk<'a, &'a mut [T]>).collect() }.into_multi() }
+        fn par_sort_by_cached_key<K: Ord, F: Fn(&T) -> K>(&mut self, f: F) { self.as_psm2().sort_by_cached_key(|a| f(a)) } }
+    impl<T> ParallelSliceMutExtra2<T> for [T] { fn as_psm2(&mut self) -> &mut [T] { self } }
     pub trait ParallelSliceMutExtra<T> { fn as_psm(&mut self) -> &mut [T];
         fn par_chunks_exact_mut<'a>(&'a mut self, size: usize) -> Par<'a, &'a mut [T]> where T: 'a { Par { jobs: self.as_psm().chunks_exact_mut(size).map(|c| Box::new(move || c) as Thunk<'a, &'a mut [T]>).collect() } }
         fn par_sort(&mut self) where T: Ord { self.as_psm().sort() }
@@ -354,7 +498,18 @@ pub mod slice {
     impl<T> ParallelSliceMut<T> for [T] { fn as_parallel_slice_mut(&mut self) -> &mut [T] { self } }
 }
 
-pub mod prelude { pub use crate::iter::{IndexedParallelIterator, IntoParallelIterator, IntoParallelRefIterator, IntoParallelRefMutIterator, ParallelBridge, ParallelIterator}; pub use crate::slice::{ParallelSlice, ParallelSliceMut, ParallelSliceExtra, ParallelSliceMutExtra}; pub use crate::iter::ParallelExtend; }
+pub mod str {
+    use super::iter::*;
+    pub trait ParallelString { fn as_parallel_string(&self) -> &str;
+        fn par_chars<'a>(&'a self) -> ParMulti<'a, char> { Par { jobs: self.as_parallel_string().chars().map(|c| Box::new(move || c) as Thunk<'a, char>).collect() }.into_multi() }
+        fn par_char_indices<'a>(&'a self) -> ParMulti<'a, (usize, char)> { Par { jobs: self.as_parallel_string().char_indices().map(|c| Box::new(move || c) as Thunk<'a, (usize, char)>).collect() }.into_multi() }
+        fn par_bytes<'a>(&'a self) -> Par<'a, u8> { Par { jobs: self.as_parallel_string().bytes().map(|c| Box::new(move || c) as Thunk<'a, u8>).collect() } }
+        fn par_lines<'a>(&'a self) -> ParMulti<'a, &'a str> { Par { jobs: self.as_parallel_string().lines().map(|c| Box::new(move || c) as Thunk<'a, &'a str>).collect() }.into_multi() }
+        fn par_split_whitespace<'a>(&'a self) -> ParMulti<'a, &'a str> { Par { jobs: self.as_parallel_string().split_whitespace().map(|c| Box::new(move || c) as Thunk<'a, &'a str>).collect() }.into_multi() } }
+    impl ParallelString for str { fn as_parallel_string(&self) -> &str { self } }
+}
+
+pub mod prelude { pub use crate::iter::{IndexedParallelIterator, IntoParallelIterator, IntoParallelRefIterator, IntoParallelRefMutIterator, ParallelBridge, ParallelIterator}; pub use crate::slice::{ParallelSlice, ParallelSliceMut, ParallelSliceExtra, ParallelSliceMutExtra, ParallelSliceExtra2, ParallelSliceMutExtra2}; pub use crate::iter::{ParallelDrainRange, ParallelDrainFull}; pub use crate::str::ParallelString; pub use crate::iter::ParallelExtend; }
 
 /// `rayon::scope` / `spawn`: spawned closures are queued and run, in a seeded order, when the scope ends.
 pub struct Scope<'scope> { queue: std::cell::RefCell<Vec<Box<dyn FnOnce(&Scope<'scope>) + 'scope>>> }
@@ -373,6 +528,28 @@ pub fn scope<'scope, OP, R>(op: OP) -> R where OP: FnOnce(&Scope<'scope>) -> R {
     }
     r
 }
+pub type ScopeFifo<'scope> = Scope<'scope>;
+impl<'scope> Scope<'scope> { pub fn spawn_fifo<F: FnOnce(&Scope<'scope>) + 'scope>(&self, f: F) { self.spawn(f) } }
+pub fn scope_fifo<'scope, OP, R>(op: OP) -> R where OP: FnOnce(&ScopeFifo<'scope>) -> R { scope(op) }
+pub fn in_place_scope<'scope, OP, R>(op: OP) -> R where OP: FnOnce(&Scope<'scope>) -> R { scope(op) }
+pub fn in_place_scope_fifo<'scope, OP, R>(op: OP) -> R where OP: FnOnce(&ScopeFifo<'scope>) -> R { scope(op) }
+/// fire-and-forget: runs at once (one legal schedule; the caller cannot observe completion anyway)
+pub fn spawn<F: FnOnce() + 'static>(f: F) { f() }
+pub fn spawn_fifo<F: FnOnce() + 'static>(f: F) { f() }
+#[derive(Clone, Copy, Debug)]
+pub struct BroadcastContext { index: usize, num: usize }
+impl BroadcastContext { pub fn index(&self) -> usize { self.index } pub fn num_threads(&self) -> usize { self.num } }
+/// `rayon::broadcast`: the closure runs once per simulated worker, in a seeded order
+pub fn broadcast<OP, R>(op: OP) -> Vec<R> where OP: Fn(BroadcastContext) -> R {
+    let n = current_num_threads(); let order = sim::perm(n);
+    let mut out: Vec<Option<R>> = (0..n).map(|_| None).collect();
+    for i in order { out[i] = Some(op(BroadcastContext { index: i, num: n })); }
+    out.into_iter().map(|x| x.unwrap()).collect()
+}
+#[derive(Clone, Copy, Debug, PartialEq, Eq)]
+pub enum Yield { Executed, Idle }
+pub fn yield_now() -> Option<Yield> { Some(Yield::Idle) }
+pub fn yield_local() -> Option<Yield> { Some(Yield::Idle) }
 pub fn current_thread_index() -> Option<usize> { Some(0) }
 pub fn max_num_threads() -> usize { 1 << 16 }
 
@@ -387,6 +564,9 @@ pub struct ThreadPool { n: usize }
 impl ThreadPoolBuilder {
     pub fn new() -> Self { ThreadPoolBuilder { n: 0 } }
     pub fn num_threads(mut self, n: usize) -> Self { self.n = n; self }
+    pub fn thread_name<F: FnMut(usize) -> String + 'static>(self, _f: F) -> Self { self }
+    pub fn stack_size(self, _n: usize) -> Self { self }
+    pub fn use_current_thread(self) -> Self { self }
     pub fn build(self) -> Result<ThreadPool, ThreadPoolBuildError> { Ok(ThreadPool { n: if self.n == 0 { current_num_threads() } else { self.n } }) }
     pub fn build_global(self) -> Result<(), ThreadPoolBuildError> { if self.n > 0 { sim::SCHED.with(|s| s.borrow_mut().threads = self.n); } Ok(()) }
 }
@@ -398,6 +578,12 @@ impl ThreadPool {
         r
     }
     pub fn current_num_threads(&self) -> usize { self.n }
+    pub fn current_thread_index(&self) -> Option<usize> { Some(0) }
+    pub fn spawn<F: FnOnce() + 'static>(&self, f: F) { self.install(f) }
+    pub fn spawn_fifo<F: FnOnce() + 'static>(&self, f: F) { self.install(f) }
+    pub fn broadcast<OP, R>(&self, op: OP) -> Vec<R> where OP: Fn(BroadcastContext) -> R { self.install(|| broadcast(op)) }
+    pub fn in_place_scope<'scope, OP, R>(&self, op: OP) -> R where OP: FnOnce(&Scope<'scope>) -> R { self.install(|| scope(op)) }
+    pub fn scope_fifo<'scope, OP, R>(&self, op: OP) -> R where OP: FnOnce(&ScopeFifo<'scope>) -> R { self.install(|| scope(op)) }
     pub fn join<A, B, RA, RB>(&self, a: A, b: B) -> (RA, RB) where A: FnOnce() -> RA, B: FnOnce() -> RB { self.install(|| join(a, b)) }
     pub fn scope<'scope, OP, R>(&self, op: OP) -> R where OP: FnOnce(&Scope<'scope>) -> R { self.install(|| scope(op)) }
 }
